@@ -15,3 +15,16 @@ pub fn write(path: &std::path::Path, bytes: &[u8]) {
     if path.extension().map(|e| e == "lz4").unwrap_or(false) { use std::io::Write; let f = std::fs::File::create(path).unwrap(); let mut enc = lz4::EncoderBuilder::new().build(f).unwrap(); enc.write_all(bytes).unwrap(); let (_, r) = enc.finish(); r.unwrap(); }
     else { std::fs::write(path, bytes).unwrap(); }
 }
+
+/// `.lz4` written in pieces with a flush after each piece: legal, but the decoder then delivers many short reads.
+pub fn write_lz4_flushed(path: &std::path::Path, bytes: &[u8], piece: usize) {
+    use std::io::Write;
+    let f = std::fs::File::create(path).unwrap();
+    let mut enc = lz4::EncoderBuilder::new().build(f).unwrap();
+    for c in bytes.chunks(piece.max(1)) {
+        enc.write_all(c).unwrap();
+        enc.flush().unwrap();
+    }
+    let (_, r) = enc.finish();
+    r.unwrap();
+}
